@@ -175,7 +175,7 @@ func c10Body(w *W) {
 	}
 
 	// (b2) float values from the C18 boundary set, as parsed literals
-	w.Note("float documents: 2^e and 10^e for every exponent with both neighbours, 16 values per document, spelled with 17 significant digits")
+	w.Note("float documents: 2^e and 10^e for every exponent with both neighbours, decimals of every digit count, 6000 floats between 1e17 and 1e21 with unrelated low digits; 16 values per document, spelled with 17 significant digits")
 	var fvals []float64
 	for e := -1074; e <= 1023; e++ {
 		f := math.Ldexp(1, e)
@@ -198,6 +198,16 @@ func c10Body(w *W) {
 				if err == nil {
 					fvals = append(fvals, f)
 				}
+			}
+		}
+	}
+	// large floats with unrelated low digits (2^57 .. 1e21, where the shortest digits are
+	// decided by the exactness of the interval ends): 17-digit mantissas x 10^1..10^4
+	for i := 0; i < 1500; i++ {
+		m := uint64(10000000000000000) + uint64(i)*59999999999989 + uint64(i*i)%9973
+		for e := 1; e <= 4; e++ {
+			if f, err := strconv.ParseFloat(strconv.FormatUint(m, 10)+"e"+strconv.Itoa(e), 64); err == nil {
+				fvals = append(fvals, f)
 			}
 		}
 	}
